@@ -252,10 +252,37 @@ pub fn history2(rep: &mut Report, judge: Judge, items: &[Case]) {
                 }
             }
         }
+        // depth 3 over a spread of at most 24 of the items: a two-entry memo needs three calls to go wrong
+        let step = (items.len() / 24).max(1);
+        let few: Vec<&Case> = items.iter().step_by(step).take(24).collect();
+        for a in &few {
+            for b in &few {
+                for c in &few {
+                    acc.cases += 1;
+                    acc.calls += 3;
+                    acc.nontrivial += 1;
+                    let _ = judge(a);
+                    let _ = judge(b);
+                    if let Verdict::Violated { class, expected, observed } = judge(c) {
+                        match confirm(judge, (*c).clone()) {
+                            Some(v) => acc.violate(v),
+                            None => acc.violate(Violation {
+                                class: format!("history3:{}", class),
+                                case: seq_case(b, c),
+                                expected: format!("{} - also right after the calls {} and {}", expected, a.to_json().to_string_compact(), b.to_json().to_string_compact()),
+                                observed,
+                                profile: profile_name().to_string(),
+                                trace: vec![format!("first call: {}", a.to_json().to_string_compact())],
+                            }),
+                        }
+                    }
+                }
+            }
+        }
         acc
     });
     let acc = crate::engine::evidence::Acc::merged(accs);
-    rep.add_space(&format!("histories: every ordered pair of {} representative cases (a's calls, then b judged)", items.len()), &acc, t0, "single-threaded depth-2 call sequences through the canonical judge");
+    rep.add_space(&format!("histories: every ordered pair of {} representative cases and every ordered triple of {} of them (earlier calls, then the last judged)", items.len(), items.len().min(24)), &acc, t0, "single-threaded depth-2 and depth-3 call sequences through the canonical judge");
 }
 
 pub fn sample_json(kind: &str, shown: &str, result: &str) -> Json {
